@@ -1,3 +1,12 @@
+pub mod c32;
+pub mod c33;
+pub mod c34;
+pub mod c35;
+pub mod c48;
+pub mod payload;
+pub mod refhash;
+pub mod txgen;
+
 pub fn checks() -> Vec<vf_core::Check> {
-    vec![]
+    vec![c32::check(), c33::check(), c34::check(), c35::check(), c48::check()]
 }
